@@ -55,7 +55,11 @@ AX = ('x', 'y', 'z')
 
 
 def tasks(tier):
-    return ['wrap', 'helpers', 'periodic', 'mirror', 'update', 'canary']
+    # ghosts are built with ParticleArray.extract_particles / append_parray
+    # and removed with remove_tagged_particles (C06): re-proved here
+    return ['wrap', 'helpers', 'periodic', 'mirror', 'update', 'canary',
+            'dep:C06:extract', 'dep:C06:append', 'dep:C06:tagged',
+            'dep:C06:remove']
 
 
 def carr(name, length=None, elem='real'):
@@ -67,6 +71,9 @@ def carr(name, length=None, elem='real'):
 
 
 def run_task(task, ctx):
+    if task.startswith('dep:'):
+        from contracts import deps
+        return deps.run_dep(task, ctx)
     repo = Repo()
     m = repo.cython_module(PYX)
     if task == 'wrap':
